@@ -1468,6 +1468,47 @@ def parseFuel (E : Env) (fuel : Nat) : Outcome :=
     | .fuel => .fuel
     | .ok root _ => .ok { root := root, tables := t }
 
+/-! ## Well-formedness of the raw tree (what the reducer and the writer rely on) -/
+
+def isLeafType (t : NT) : Bool :=
+  !(t == .alternate || t == .concatenate || t == .loop || t == .lazyloop || t == .capture || t == .group ||
+    t == .posLook || t == .negLook || t == .atomic || t == .backRefCond || t == .exprCond)
+
+def isSetType (t : NT) : Bool := t == .set || t == .setloop || t == .setlazy
+
+def isRepType (t : NT) : Bool :=
+  t == .oneloop || t == .notoneloop || t == .setloop || t == .onelazy || t == .notonelazy || t == .setlazy ||
+  t == .loop || t == .lazyloop
+
+/-- the local conditions on one node: child count per node type, a set exactly on the set family,
+    `0 ≤ M ≤ N` on repeaters, group numbers registered in `caps`, a Multi of at least two runes -/
+def nodeOk (caps : List Nat) (t : NT) (str : List Nat) (set : Option Class.Class) (m n : Int) (nk : Nat) : Bool :=
+  (if isLeafType t then nk == 0
+   else if t == .concatenate then true
+   else if t == .alternate then decide (nk ≥ 1)
+   else if t == .backRefCond then decide (1 ≤ nk ∧ nk ≤ 2)
+   else if t == .exprCond then decide (2 ≤ nk ∧ nk ≤ 3)
+   else nk == 1) &&
+  (set.isSome == isSetType t) &&
+  (!isRepType t || (decide (0 ≤ m) && decide (m ≤ n))) &&
+  (!(t == .ref || t == .backRefCond) || (decide (0 ≤ m) && caps.contains m.toNat)) &&
+  (!(t == .capture) || ((m == -1 || (decide (0 ≤ m) && caps.contains m.toNat)) &&
+                        (n == -1 || (decide (0 ≤ n) && caps.contains n.toNat)) && !(m == -1 && n == -1))) &&
+  (!(t == .multi) || decide (str.length ≥ 2))
+
+mutual
+def wfNode (caps : List Nat) : RNode → Bool
+  | .mk t _ _ str set m n kids => nodeOk caps t str set m n kids.length && wfKids caps kids
+def wfKids (caps : List Nat) : List RNode → Bool
+  | [] => true
+  | k :: ks => wfNode caps k && wfKids caps ks
+end
+
+/-- a well-formed raw tree: root = Capture 0, every node locally well-formed, tables consistent -/
+def wfTree (t : RawTree) : Bool :=
+  t.root.t == .capture && t.root.m == 0 && wfNode t.tables.caps t.root && t.tables.caps.contains 0 &&
+  t.tables.caps.all (fun c => decide (c < t.tables.captop ∨ c = maxInt32))
+
 /-- `Parse`: every turn of either outer loop consumes at least one rune, so `length + 1` turns suffice
     (`Props.C10.parse_total`) -/
 def parse (E : Env) : Outcome := parseFuel E (E.pat.length + 1)
